@@ -414,6 +414,35 @@ func runStoreCase(r *rec, rnd *rand.Rand, id, dir string, ks keySet, probeMax in
 	check("merged+file+memory")
 }
 
+// explainedByFF: is the answer to "in (vals)" exactly what the known 0xFF defect produces - every value
+// answered either correctly or with the id stored for value+FF (at least once the latter)?
+func explainedByFF(or *oracle, vals []string, got []uint32) bool {
+	remain := map[uint32]int{}
+	for _, v := range got {
+		remain[v]++
+	}
+	usedAlt := false
+	for _, v := range vals {
+		cv, cok := or.get([]byte(v))
+		av, aok := or.get(append([]byte(v), 0xFF))
+		switch {
+		case cok && remain[cv] > 0:
+			remain[cv]--
+		case aok && remain[av] > 0:
+			remain[av]--
+			usedAlt = true
+		case cok:
+			return false // a stored value is missing from the answer
+		}
+	}
+	for _, cnt := range remain {
+		if cnt != 0 {
+			return false
+		}
+	}
+	return usedAlt
+}
+
 // storePanicClass: the known defect is strutil.ByteSlice2String(&b[0]) on an empty key in the lookup of
 // the in-memory maps (index/kv_store.go getValueFromMem); everything else keeps the operation's class.
 func storePanicClass(what string, emptyKeyInvolved bool, def string) string {
@@ -440,7 +469,11 @@ func checkStore(r *rec, s index.IndexKVStore, bucketID uint32, or *oracle, ks ke
 		case err != nil:
 			r.viol("C20/store/getvalue-error", fmt.Sprintf("[%s] GetValue(%x): %v", tag, p, err), wit("GetValue", p, nil))
 		case eok && (!ok || v != ev):
-			r.viol("C20/store/getvalue-present-key", fmt.Sprintf("[%s] GetValue(%x) = %d,%v; stored %d", tag, p, v, ok, ev), wit("GetValue", p, nil))
+			class := "C20/store/getvalue-present-key"
+			if xv, xok := or.get(append(append([]byte{}, p...), 0xFF)); ok && xok && xv == v {
+				class = "C20/trie/0xff-label-vs-terminator" // a block holding only probe+FF answers before the right block is asked
+			}
+			r.viol(class, fmt.Sprintf("[%s] GetValue(%x) = %d,%v (value of key %x); stored %d", tag, p, v, ok, or.byVal[v], ev), wit("GetValue", p, nil))
 		case !eok && ok:
 			class := "C20/store/getvalue-absent-key-found"
 			ext := append(append([]byte{}, p...), 0xFF)
@@ -494,37 +527,8 @@ func checkStore(r *rec, s index.IndexKVStore, bucketID uint32, or *oracle, ks ke
 			r.eval(1)
 			if err != nil || !equalU32(got, exp) {
 				class := "C20/store/in-expr"
-				if err == nil && or.hasFF {
-					// 0xFF defect: an absent value p is answered with the id of the stored key p+FF
-					allowed := map[uint32]bool{}
-					for _, v := range vals {
-						if _, ok := or.get([]byte(v)); !ok {
-							if xv, xok := or.get(append([]byte(v), 0xFF)); xok {
-								allowed[xv] = true
-							}
-						}
-					}
-					remain := map[uint32]int{}
-					for _, v := range got {
-						remain[v]++
-					}
-					missing := false
-					for _, v := range exp {
-						if remain[v] == 0 {
-							missing = true
-						}
-						remain[v]--
-					}
-					okFF, extra := !missing, 0
-					for v, cnt := range remain {
-						if cnt > 0 {
-							extra += cnt
-							okFF = okFF && allowed[v]
-						}
-					}
-					if okFF && extra > 0 {
-						class = "C20/trie/0xff-label-vs-terminator"
-					}
+				if err == nil && or.hasFF && explainedByFF(or, vals, got) {
+					class = "C20/trie/0xff-label-vs-terminator"
 				}
 				r.viol(class, fmt.Sprintf("[%s] in %q selects %v (err %v), expected %v", tag, vals, got, err, exp), wit("FindValuesByExpr(in)", nil, nil))
 			}
@@ -534,7 +538,11 @@ func checkStore(r *rec, s index.IndexKVStore, bucketID uint32, or *oracle, ks ke
 		} else {
 			r.eval(1)
 			if err != nil || len(got) != 1 || got[0] != e.v {
-				r.viol("C20/store/equals-expr", fmt.Sprintf("[%s] = %x selects %v (err %v), expected [%d]", tag, e.k, got, err, e.v), wit("FindValuesByExpr(=)", e.k, nil))
+				class := "C20/store/equals-expr"
+				if err == nil && or.hasFF && explainedByFF(or, []string{string(e.k)}, got) {
+					class = "C20/trie/0xff-label-vs-terminator"
+				}
+				r.viol(class, fmt.Sprintf("[%s] = %x selects %v (err %v), expected [%d]", tag, e.k, got, err, e.v), wit("FindValuesByExpr(=)", e.k, nil))
 			}
 		}
 	}
